@@ -46,9 +46,10 @@ static inline uint64_t bits_of(float a) { return b32(a); }
 static inline uint64_t bits_of(double a) { return b64(a); }
 static inline uint64_t bits_of(bool a) { return a; }
 enum Cmp { BITS, VALUE, ULPS, LOWPREL };
-static thread_local int g_checked = 0;   // number of lane comparisons actually executed for the current case (vacuity accounting)
+static thread_local int g_checked = 0; static thread_local uint64_t g_dig = 0;   // digest of every scalar and vector result of the case (C15/C03 compare it across configurations)   // number of lane comparisons actually executed for the current case (vacuity accounting)
 template <typename A> static inline bool cmp_lane(A a, A b, int cmp, bool lowp, double mag = 0) {
-  ++g_checked;
+  ++g_checked; { A da = a, db = b; if (std::is_floating_point<A>::value && cmp != BITS) { if (da == 0) da = 0; if (db == 0) db = 0; }   /* where the sign of zero is not prescribed it is not part of the observation */
+    g_dig = mix64(mix64(g_dig, da != da ? 0x7ff8ull : bits_of(da)), db != db ? 0x7ff8ull : bits_of(db)); }
   if (cmp == BITS) return same_bits(a, b); if (cmp == VALUE) return same_value(a, b);
   if (std::is_floating_point<A>::value) { double x = (double)a, y = (double)b; if (x != x || y != y || std::isinf(x) || std::isinf(y) || !(mag - mag == 0)) return true;    // composite formulas: only finite results are compared
     double u = sizeof(A) == 4 ? 5.97e-8 : 1.12e-16; if (cmp == LOWPREL) return lowp ? std::fabs(x - y) <= std::ldexp(1.0, -8) * std::fabs(y) : same_bits(a, b);
@@ -72,7 +73,7 @@ template <class OP, typename T, int L, glm::qualifier Q> static bool u1(uint64_t
   return true;
 }
 template <class OP, typename T, glm::qualifier Q> static bool u1q(uint64_t i, Outcome& o) { return u1<OP, T, 1, Q>(i, o) && u1<OP, T, 2, Q>(i, o) && u1<OP, T, 3, Q>(i, o) && u1<OP, T, 4, Q>(i, o); }
-template <class OP, typename T> static void op_u1(const Case& c, Outcome& o) { o.cls(0); g_checked = 0; struct G { Outcome& o; ~G() { if (!g_checked) o.nontrivial = false; } } g_{o}; if (!u1q<OP, T, glm::highp>(c.w[0], o)) return; if (!u1q<OP, T, glm::lowp>(c.w[0], o)) return; u1q<OP, T, glm::mediump>(c.w[0], o); }
+template <class OP, typename T> static void op_u1(const Case& c, Outcome& o) { o.cls(0); g_checked = 0; g_dig = 0; struct G { Outcome& o; ~G() { if (!g_checked) o.nontrivial = false; o.dg(g_dig); } } g_{o}; if (!u1q<OP, T, glm::highp>(c.w[0], o)) return; if (!u1q<OP, T, glm::lowp>(c.w[0], o)) return; u1q<OP, T, glm::mediump>(c.w[0], o); }
 
 // ---- binary: vv, and (optionally) vs / sv broadcast forms
 template <class OP, typename T, typename T2, int L, glm::qualifier Q, int SHAPES> static bool b2(uint64_t i, uint64_t j, Outcome& o) {
@@ -89,7 +90,7 @@ template <class OP, typename T, typename T2, int L, glm::qualifier Q, int SHAPES
   return true;
 }
 template <class OP, typename T, typename T2, glm::qualifier Q, int SH> static bool b2q(uint64_t i, uint64_t j, Outcome& o) { return b2<OP, T, T2, 1, Q, SH>(i, j, o) && b2<OP, T, T2, 2, Q, SH>(i, j, o) && b2<OP, T, T2, 3, Q, SH>(i, j, o) && b2<OP, T, T2, 4, Q, SH>(i, j, o); }
-template <class OP, typename T, typename T2, int SH> static void op_b2(const Case& c, Outcome& o) { o.cls(0); g_checked = 0; struct G { Outcome& o; ~G() { if (!g_checked) o.nontrivial = false; } } g_{o}; if (!b2q<OP, T, T2, glm::highp, SH>(c.w[0], c.w[1], o)) return; if (!b2q<OP, T, T2, glm::lowp, SH>(c.w[0], c.w[1], o)) return; b2q<OP, T, T2, glm::mediump, SH>(c.w[0], c.w[1], o); }
+template <class OP, typename T, typename T2, int SH> static void op_b2(const Case& c, Outcome& o) { o.cls(0); g_checked = 0; g_dig = 0; struct G { Outcome& o; ~G() { if (!g_checked) o.nontrivial = false; o.dg(g_dig); } } g_{o}; if (!b2q<OP, T, T2, glm::highp, SH>(c.w[0], c.w[1], o)) return; if (!b2q<OP, T, T2, glm::lowp, SH>(c.w[0], c.w[1], o)) return; b2q<OP, T, T2, glm::mediump, SH>(c.w[0], c.w[1], o); }
 
 // ---- ternary: vvv and the scalar-edge variants  SHAPES: 1 = (v,s,s)  2 = (v,v,s)  4 = (s,s,v)
 template <class OP, typename T, typename T3, int L, glm::qualifier Q, int SHAPES> static bool t3(uint64_t i, uint64_t j, uint64_t l, Outcome& o) {
@@ -102,7 +103,7 @@ template <class OP, typename T, typename T3, int L, glm::qualifier Q, int SHAPES
   return true;
 }
 template <class OP, typename T, typename T3, glm::qualifier Q, int SH> static bool t3q(uint64_t i, uint64_t j, uint64_t l, Outcome& o) { return t3<OP, T, T3, 1, Q, SH>(i, j, l, o) && t3<OP, T, T3, 2, Q, SH>(i, j, l, o) && t3<OP, T, T3, 3, Q, SH>(i, j, l, o) && t3<OP, T, T3, 4, Q, SH>(i, j, l, o); }
-template <class OP, typename T, typename T3, int SH> static void op_t3(const Case& c, Outcome& o) { o.cls(0); g_checked = 0; struct G { Outcome& o; ~G() { if (!g_checked) o.nontrivial = false; } } g_{o}; if (!t3q<OP, T, T3, glm::highp, SH>(c.w[0], c.w[1], c.w[2], o)) return; if (!t3q<OP, T, T3, glm::lowp, SH>(c.w[0], c.w[1], c.w[2], o)) return; t3q<OP, T, T3, glm::mediump, SH>(c.w[0], c.w[1], c.w[2], o); }
+template <class OP, typename T, typename T3, int SH> static void op_t3(const Case& c, Outcome& o) { o.cls(0); g_checked = 0; g_dig = 0; struct G { Outcome& o; ~G() { if (!g_checked) o.nontrivial = false; o.dg(g_dig); } } g_{o}; if (!t3q<OP, T, T3, glm::highp, SH>(c.w[0], c.w[1], c.w[2], o)) return; if (!t3q<OP, T, T3, glm::lowp, SH>(c.w[0], c.w[1], c.w[2], o)) return; t3q<OP, T, T3, glm::mediump, SH>(c.w[0], c.w[1], c.w[2], o); }
 
 template <typename T> static Domain D1() { return range("VALUES<" + std::to_string(values<T>().size()) + ">", 0, values<T>().size(), false); }
 template <class OP, typename T> static void R1(Engine& E, const char* tn) { Op& op = E.add(std::string(OP::name()) + "(v) <" + tn + "> L=1..4 x {highp,mediump,lowp}", op_u1<OP, T>); op.quick = {D1<T>()}; }
@@ -132,15 +133,15 @@ DEF_FN_PRE(nextMultiple, BITS, template <class A> static bool pre(A x, A m) { re
 DEF_FN_PRE(prevMultiple, BITS, template <class A> static bool pre(A x, A m) { return m > 0 && m <= (A)(std::numeric_limits<A>::max() / 4) && x <= (A)(std::numeric_limits<A>::max() - m) && (std::numeric_limits<A>::min() == 0 || x >= (A)(std::numeric_limits<A>::min() + m)); })
 DEF_FN_PRE(findNSB, BITS, template <class A> static bool pre(A, int n) { return n >= 1 && n <= 64; })
 // relational functions have no scalar overload: the scalar side is the C++ operator
-#define DEF_REL(NAME, OPR) struct F_##NAME { template <class... A> static double mag(A...) { return 0; } static const char* name() { return #NAME; } enum { CMP = BITS }; template <int L, class T, glm::qualifier Q> static glm::vec<L, bool, Q> f(glm::vec<L, T, Q> a, glm::vec<L, T, Q> b) { return glm::NAME(a, b); } \
+#define DEF_REL(NAME, OPR) struct F_##NAME { template <class... A> static double mag(A...) { return 0; } static const char* name() { return #NAME; } enum { CMP = BITS }; template <glm::length_t L, class T, glm::qualifier Q> static glm::vec<L, bool, Q> f(glm::vec<L, T, Q> a, glm::vec<L, T, Q> b) { return glm::NAME(a, b); } \
   template <class T, class = typename std::enable_if<std::is_arithmetic<T>::value>::type> static bool f(T a, T b) { return a OPR b; } template <class... A> static bool pre(A...) { return true; } };
 DEF_REL(lessThan, <) DEF_REL(lessThanEqual, <=) DEF_REL(greaterThan, >) DEF_REL(greaterThanEqual, >=) DEF_REL(equal, ==) DEF_REL(notEqual, !=)
 struct F_equalEps { template <class... A> static double mag(A...) { return 0; } static const char* name() { return "equal(x,y,epsilon)"; } enum { CMP = BITS }; template <class A, class B, class C> static auto f(A a, B b, C c) -> decltype(glm::equal(a, b, c)) { return glm::equal(a, b, c); } template <class... A> static bool pre(A...) { return true; } };
 struct F_notEqualEps { template <class... A> static double mag(A...) { return 0; } static const char* name() { return "notEqual(x,y,epsilon)"; } enum { CMP = BITS }; template <class A, class B, class C> static auto f(A a, B b, C c) -> decltype(glm::notEqual(a, b, c)) { return glm::notEqual(a, b, c); } template <class... A> static bool pre(A...) { return true; } };
 // operators: the scalar side is the C++ operator on T (with the result converted to T as GLM documents)
-#define DEF_OPB(ID, OPR, CMPV, ...) struct O_##ID { template <class... A> static double mag(A...) { return 0; } static const char* name() { return "operator" #OPR; } enum { CMP = CMPV }; template <int L, class T, glm::qualifier Q> static glm::vec<L, T, Q> f(glm::vec<L, T, Q> a, glm::vec<L, T, Q> b) { return a OPR b; } \
-  template <int L, class T, glm::qualifier Q> static glm::vec<L, T, Q> f(glm::vec<L, T, Q> a, T b) { return a OPR b; } template <int L, class T, glm::qualifier Q> static glm::vec<L, T, Q> f(T a, glm::vec<L, T, Q> b) { return a OPR b; } \
-  template <int L, class T, glm::qualifier Q, class = typename std::enable_if<(L > 1)>::type> static glm::vec<L, T, Q> f(glm::vec<L, T, Q> a, glm::vec<1, T, Q> b) { return a OPR b; } template <int L, class T, glm::qualifier Q, class = typename std::enable_if<(L > 1)>::type> static glm::vec<L, T, Q> f(glm::vec<1, T, Q> a, glm::vec<L, T, Q> b) { return a OPR b; } \
+#define DEF_OPB(ID, OPR, CMPV, ...) struct O_##ID { template <class... A> static double mag(A...) { return 0; } static const char* name() { return "operator" #OPR; } enum { CMP = CMPV }; template <glm::length_t L, class T, glm::qualifier Q> static glm::vec<L, T, Q> f(glm::vec<L, T, Q> a, glm::vec<L, T, Q> b) { return a OPR b; } \
+  template <glm::length_t L, class T, glm::qualifier Q> static glm::vec<L, T, Q> f(glm::vec<L, T, Q> a, T b) { return a OPR b; } template <glm::length_t L, class T, glm::qualifier Q> static glm::vec<L, T, Q> f(T a, glm::vec<L, T, Q> b) { return a OPR b; } \
+  template <glm::length_t L, class T, glm::qualifier Q, class = typename std::enable_if<(L > 1)>::type> static glm::vec<L, T, Q> f(glm::vec<L, T, Q> a, glm::vec<1, T, Q> b) { return a OPR b; } template <glm::length_t L, class T, glm::qualifier Q, class = typename std::enable_if<(L > 1)>::type> static glm::vec<L, T, Q> f(glm::vec<1, T, Q> a, glm::vec<L, T, Q> b) { return a OPR b; } \
   template <class T, class = typename std::enable_if<std::is_arithmetic<T>::value>::type> static T f(T a, T b) { return (T)(a OPR b); } __VA_ARGS__ };
 template <class T> static bool add_ok(T a, T b) { if (!std::is_integral<T>::value || !std::is_signed<T>::value || sizeof(T) < 4) return true; __int128 r = (__int128)a + b; return r >= std::numeric_limits<T>::min() && r <= std::numeric_limits<T>::max(); }
 template <class T> static bool sub_ok(T a, T b) { if (!std::is_integral<T>::value || !std::is_signed<T>::value || sizeof(T) < 4) return true; __int128 r = (__int128)a - b; return r >= std::numeric_limits<T>::min() && r <= std::numeric_limits<T>::max(); }
@@ -272,10 +273,16 @@ int main(int argc, char** argv) {
   reg_int<glm::uint>(E, "uint");
 #endif
 #if PART(9)
-  reg_int<glm::int8>(E, "i8"); reg_int<glm::uint16>(E, "u16");
+  reg_int<glm::int8>(E, "i8");
 #endif
 #if PART(10)
-  reg_int<glm::uint8>(E, "u8"); reg_int<glm::int16>(E, "i16");
+  reg_int<glm::uint8>(E, "u8");
+#endif
+#if PART(13)
+  reg_int<glm::uint16>(E, "u16");
+#endif
+#if PART(14)
+  reg_int<glm::int16>(E, "i16");
 #endif
 #if PART(11)
   reg_int<glm::int64>(E, "i64");
